@@ -104,3 +104,73 @@ def replay(chk, case):
         if n == len(case["seq"]) - 1:
             out = [(k + "/history-dependent", d) for k, d in v]
     return out
+
+
+def long_history(acc, ops, chk, scratch, kind_name="seq", passes=("forward", "forward", "reverse")):
+    """ONE long sequence: all operations in order, once more in order, then in reverse order (a bounded memo / ring / LRU
+    has been filled and wrapped several times by then).  Each operation is judged by its single-case oracle.  A violation
+    of an operation that is correct on a fresh process image is reported with the executed prefix as its replay.  Cost is
+    linear in the number of operations (one forked child for the sequence, one per violating operation to test it alone)."""
+    order = []
+    for p in passes:
+        idx = list(range(len(ops)))
+        order += idx if p == "forward" else idx[::-1]
+    path = os.path.join(scratch, f"long-{os.getpid()}.jsonl")
+    fd = os.open(path, os.O_WRONLY | os.O_CREAT | os.O_TRUNC | os.O_APPEND, 0o600)
+    pid = os.fork()
+    if pid == 0:
+        code = 0
+        try:
+            for pos, i in enumerate(order):
+                kind, case = ops[i]
+                try:
+                    viol = [list(v) for v in apply(chk, kind, case)]
+                except BaseException:
+                    os.write(fd, (json.dumps({"pos": pos, "error": traceback.format_exc()[-1500:]}) + "\n").encode())
+                    break
+                if viol:
+                    os.write(fd, (json.dumps({"pos": pos, "op": i, "viol": viol}, default=str) + "\n").encode())
+        except BaseException:
+            code = 3
+        os._exit(code)
+    _, status = os.waitpid(pid, 0)
+    os.close(fd)
+    recs = [json.loads(l) for l in open(path)]
+    os.unlink(path)
+    if status != 0:
+        raise RuntimeError(f"long-history explorer: child exit status {status}")
+    alone = {}
+    seen_keys = set()
+    for r in recs:
+        if "error" in r:
+            raise RuntimeError(f"long-history explorer: harness error at position {r['pos']}: {r['error']}")
+        i = r["op"]
+        if i not in alone:
+            p2 = os.path.join(scratch, f"long1-{os.getpid()}.json")
+            pid = os.fork()
+            if pid == 0:
+                try:
+                    v = apply(chk, *ops[i])
+                    open(p2, "w").write(json.dumps(bool(v)))
+                except BaseException:
+                    open(p2, "w").write(json.dumps("error"))
+                os._exit(0)
+            os.waitpid(pid, 0)
+            alone[i] = json.load(open(p2))
+            os.unlink(p2)
+        if alone[i]:
+            continue            # wrong (or erroring) already as a first operation: the ordinary jobs report it
+        for key, desc in r["viol"]:
+            if key in seen_keys:
+                continue
+            seen_keys.add(key)
+            case = {"seq": [[ops[j][0], ops[j][1]] for j in order[:r["pos"] + 1]]}
+            acc.violation(kind_name, case, key + "/history-dependent",
+                          f"correct on a fresh process image, wrong as operation {r['pos'] + 1} of a long history ({len(ops)} distinct operations, "
+                          f"passes {'/'.join(passes)}): {desc}")
+    acc.evaluations += len(order)
+    acc.executions += 1
+    acc.states += len(order)
+    acc.transitions += len(order)
+    acc.nontrivial += len(order)
+    return len(order)
